@@ -1234,7 +1234,8 @@ public:
                          DIdxSet* intVars = nullptr)
    {
 
-      spxifstream file(filename);
+      spxifstream file;
+      spxOpenInputFile(file, filename);
 
       if(!file)
          return false;
